@@ -198,6 +198,13 @@ type fCase struct {
 	Inst  int    `json:"inst"`           // index inside the cell
 	NoErrCheck bool `json:"noerr,omitempty"` // model error is not compared (illegal input, outside the quantifier)
 	Expect string `json:"expect,omitempty"`  // mode oracle: the text an independent Go oracle expects
+	Units  []fUnit `json:"units,omitempty"`  // composite sequences: the top-level units (for shrinking)
+}
+
+// fUnit: one top-level unit of a composite control string with the arguments it consumes.
+type fUnit struct {
+	Ctrl string `json:"ctrl"`
+	Args []fArg `json:"args"`
 }
 
 func (cs fCase) request() string {
@@ -662,6 +669,17 @@ func runC15(c *lib.Ctx) {
 		c.Ev.Case(cs.Ctrl+"\x00"+fmt.Sprint(cs.Args), nontrivial)
 		c.Ev.Hist("mode", cs.Mode)
 		c.Ev.Hist("directives", fmt.Sprint(strings.Count(cs.Ctrl, "~")))
+		for _, d := range c15Directives(cs.Ctrl) {
+			c.Ev.Hist("directive", d)
+		}
+		if cs.Mode == "fmt" {
+			if _, mok, merr := c15ModelText(replies[i]); !mok {
+				c.Ev.Hist("model_error", merr)
+			}
+			if !impl.Ok && !impl.Hang {
+				c.Ev.Hist("impl_condition", impl.Class)
+			}
+		}
 		if cs.Sweep {
 			c.Ev.Count("sweep_cases", 1)
 		} else {
@@ -728,8 +746,27 @@ func runC15(c *lib.Ctx) {
 	if c.GenBroken != "" {
 		c15GenWitness(c)
 	}
-	// composite disagreements after the sweep cells (the cells carry the more telling signatures)
+	// composite disagreements after the sweep cells (the cells carry the more telling signatures);
+	// the first few are shrunk unit by unit (witness minimisation)
 	for i := range compSigs {
+		if i < 6 {
+			if cases, ok := compRecs[i]["cases"].([]fCase); ok && len(cases) == 1 && len(cases[0].Units) > 1 {
+				small := c15Shrink(c, cases[0])
+				if len(small.Units) < len(cases[0].Units) {
+					compRecs[i]["original_input"] = compRecs[i]["input"]
+					compRecs[i]["input"] = small.lisp()
+					compRecs[i]["cases"] = []fCase{small}
+					impl := c15RunImpl([]fCase{small}, 1)[0]
+					model := c.Model([]string{small.request()})[0]
+					compRecs[i]["observed"] = impl.String()
+					if t, ok, _ := c15ModelText(model); ok {
+						compRecs[i]["expected"] = fmt.Sprintf("ok %q", t)
+					} else {
+						compRecs[i]["expected"] = model
+					}
+				}
+			}
+		}
 		c.Report(compSigs[i], false, compRecs[i])
 	}
 	c.Ev.Coverage["traces_validated_against_impl"] = len(cases)
@@ -740,11 +777,71 @@ func runC15(c *lib.Ctx) {
 	c.Ev.Coverage["rule"] = "cases = (control string, argument tuple); sweep = per directive x modifiers x parameter class x argument class cells (exhaustive, seed independent; ~@R/~:@R over all of 1..3999) + implementation-only relations (~A=princ, ~S=prin1, destinations); composite = seeded random compositions of up to 4 directives incl. nesting, avoiding constructs listed in findings; non-trivial = a directive has a parameter or modifier, or >= 2 directives; distinct by (control, arguments)"
 }
 
+// c15Shrink removes top-level units (with their arguments) while the case still disagrees.
+func c15Shrink(c *lib.Ctx, cs fCase) fCase {
+	build := func(units []fUnit) fCase {
+		out := fCase{Mode: "fmt", Units: units}
+		for _, u := range units {
+			out.Ctrl += u.Ctrl
+			out.Args = append(out.Args, u.Args...)
+		}
+		return out
+	}
+	cur := cs.Units
+	for changed := true; changed && len(cur) > 1; {
+		changed = false
+		for i := range cur {
+			cand := append(append([]fUnit{}, cur[:i]...), cur[i+1:]...)
+			cc := build(cand)
+			if cc.Ctrl == "" {
+				continue
+			}
+			model := c.Model([]string{cc.request()})[0]
+			if _, mok, _ := c15ModelText(model); !mok {
+				continue // keep the witness inside the legal inputs
+			}
+			impl := c15RunImpl([]fCase{cc}, 1)[0]
+			if c15Aspect(cc, impl, model) != "" {
+				cur, changed = cand, true
+				break
+			}
+		}
+	}
+	return build(cur)
+}
+
 func orOkEmpty(s string) string {
 	if s == "" {
 		return "err none"
 	}
 	return s
+}
+
+// c15Directives: the directive characters of a control string (lower case), parameters skipped
+func c15Directives(ctrl string) []string {
+	var out []string
+	rs := []rune(ctrl)
+	for i := 0; i < len(rs); i++ {
+		if rs[i] != '~' {
+			continue
+		}
+		i++
+		for i < len(rs) {
+			if rs[i] == '\'' {
+				i += 2
+				continue
+			}
+			if strings.ContainsRune("0123456789,:@#vV+-", rs[i]) {
+				i++
+				continue
+			}
+			break
+		}
+		if i < len(rs) {
+			out = append(out, strings.ToLower(string(rs[i])))
+		}
+	}
+	return out
 }
 
 // c15Shape: the control string with literal text collapsed (signature of a composite disagreement)
